@@ -152,7 +152,8 @@ PROPS.update({
                "differential run (every source over an alphabet with ties x 4 comparators x every operation) and the implementation-side sorted-permutation oracle."),
         technique="Lean 4 proof (invariant by induction over histories, one lemma per arm, loop invariants for binary search and the Append loop; kernel-checked counterexample for the known finding) + model/implementation correspondence",
         design_ref="DESIGN.md §6 C11"),
-    "C12": dict(adp_prop(["EyeballVerif.Props.C12", "EyeballVerif.Props.ChainSound"],
+    "C12": dict(adp_prop(["EyeballVerif.Props.C12", "EyeballVerif.Props.ChainSound", "EyeballVerif.Props.PipeSound", "EyeballVerif.Lemmas.TruncInv"],
+        "pipe_poll_sound + pipeInv_initial: for the batched flavour and static chains of Head/Tail/Skip/Filter stages of any depth, the pipeline invariant (vector invariants VInv + TInv, receiver replica defined, ChainInv for that replica) holds from construction at any reachable state and is preserved by every poll of the real poll loop (pollStages), no stage panics, and an item handed out is a valid container taking the composed view before the poll to the composed view after it (Pending/End leave it unchanged); tinv_run: everything owed to a receiver is a valid container (every Truncate shortens); "
         "chain_sound: for every chain of adapters (any kinds, any depth) whose stages satisfy their invariants and every valid container from the source that brings no Truncate to a Sort stage: no stage panics, the invariants hold "
         "afterwards, and the diffs coming out at the top take the old composed view to the new composed view, strictly, and are again a valid container (induction over the chain; stage_onDiffs_sound per stage; "
         "head/skip/filter_truncOK: an emitted Truncate really shortens); mkPipe_chainInv: every chain the constructors build satisfies the chain invariant and its composed view is the initial values handed out; c12_initial_values / c12_initial_chain: for every stage kind, initial contents and chain of any length, the initial values handed on are the composition of the stage views (the repaired D5); "
